@@ -49,6 +49,7 @@ import (
 	"io"
 	"iter"
 	"regexp/syntax"
+	"strconv"
 	"strings"
 	"unicode"
 	"unicode/utf8"
@@ -134,6 +135,15 @@ func Compile(pattern string) (*Regex, error) {
 	}, nil
 }
 
+// quote formats a pattern for the MustCompile panic messages the way stdlib
+// does: back-quoted when possible, otherwise as a Go double-quoted string.
+func quote(s string) string {
+	if strconv.CanBackquote(s) {
+		return "`" + s + "`"
+	}
+	return strconv.Quote(s)
+}
+
 // MustCompile compiles a regular expression pattern and panics if it fails.
 //
 // This is useful for patterns known to be valid at compile time.
@@ -144,7 +154,7 @@ func Compile(pattern string) (*Regex, error) {
 func MustCompile(pattern string) *Regex {
 	re, err := Compile(pattern)
 	if err != nil {
-		panic("regexp: Compile(`" + pattern + "`): " + err.Error())
+		panic(`regexp: Compile(` + quote(pattern) + `): ` + err.Error())
 	}
 	return re
 }
@@ -186,7 +196,7 @@ func CompilePOSIX(pattern string) (*Regex, error) {
 func MustCompilePOSIX(pattern string) *Regex {
 	re, err := CompilePOSIX(pattern)
 	if err != nil {
-		panic("regexp: CompilePOSIX(`" + pattern + "`): " + err.Error())
+		panic(`regexp: CompilePOSIX(` + quote(pattern) + `): ` + err.Error())
 	}
 	return re
 }
